@@ -192,9 +192,17 @@ impl SocksListener {
                     None
                 };
                 let target = into_unspecified(local).into();
-                let (mut listen_addr, frames) = setup_udp_session(local, remote)
-                    .await
-                    .context("setup_udp_session")?;
+                // e.g. the client named an address of the other family: that is a failed request,
+                // which gets its failure reply like any other
+                let (mut listen_addr, frames) = match setup_udp_session(local, remote).await {
+                    Ok(x) => x,
+                    Err(e) => {
+                        debug!("setup_udp_session failed: {}", e);
+                        ctx.on_error(err_msg(format!("setup_udp_session: {}", e)))
+                            .await;
+                        return Ok(());
+                    }
+                };
 
                 if let Some(override_addr) = self.override_udp_address {
                     listen_addr = SocketAddr::new(override_addr, listen_addr.port());
